@@ -92,6 +92,15 @@ pub open spec fn base_name(p: PathV) -> Seq<u8> {
     p.last()
 }
 
+pub proof fn lemma_child(dir: PathV, n: Seq<u8>)
+    ensures
+        child(dir, n).len() > 0,
+        parent(child(dir, n)) == dir,
+        base_name(child(dir, n)) == n,
+{
+    assert(dir.push(n).drop_last() =~= dir);
+}
+
 /// A name that denotes exactly one directory entry: non-empty, no '/', not "." or "..".
 /// (A name with an embedded NUL is a single component too; every system call rejects it.)
 pub open spec fn single_component(n: Seq<u8>) -> bool {
